@@ -1114,3 +1114,29 @@ mod tests {
         assert!(debug_str.ends_with('}'));
     }
 }
+
+// Verification hooks (guarded; compiled only with `--cfg mini_moka_verif`).
+#[cfg(mini_moka_verif)]
+impl<K, V, S> Cache<K, V, S>
+where
+    K: Hash + Eq + Send + Sync + 'static,
+    V: Clone + Send + Sync + 'static,
+    S: BuildHasher + Clone + Send + Sync + 'static,
+{
+    /// Installs the mock clock and re-bases the housekeeper on it.
+    pub fn verif_set_clock(&self, clock: &crate::verif::VerifClock) {
+        self.base.verif_set_clock(clock);
+    }
+
+    pub fn verif_frequency(&self, key: &K) -> u8 {
+        self.base.verif_frequency(key)
+    }
+
+    /// Read-only snapshot of the internal state (takes the deques lock).
+    pub fn verif_snapshot(&self, clock: &crate::verif::VerifClock) -> crate::verif::SyncSnap<K, V>
+    where
+        K: Clone,
+    {
+        self.base.verif_snapshot(clock)
+    }
+}
